@@ -14,7 +14,7 @@ def run(facts, tier):
     for name, f, mn, text in (
         ("tables", P.table_rules, 41, "22 byte codes + the 65-entry unary code are complete prefix codes; 16 column permutations are bijections; definitional tables equal their definitions"),
         ("probes", P.probe_rules, 2, "coupon-table probes are circular"),
-        ("union folds", P.union_rules, 5, "rows are folded with & ((1 << lg_k) - 1); reduce_k folds into a fresh matrix and precedes every merge"),
+        ("union folds", P.union_rules, 7, "rows are folded with & ((1 << lg_k) - 1); reduce_k folds into a fresh matrix and precedes every merge"),
         ("union result merged", P.union_result_merged, 5, "every non-empty sketch handed out by cpc_union is marked merged (no HIP estimate) on every return path"),
         ("flavor-aware OR", P.flavor_aware_or, 3, "a sketch's table / window is OR-ed into the union matrix only where that sketch's flavor was determined; anything else goes through build_bit_matrix()"),
         ("window invariant", P.window_invariants, 1, "first_interesting_column is clamped to the window offset whenever it is recomputed"),
